@@ -274,6 +274,18 @@ def judge(d):
                 iid = None
                 if explicit:
                     iid = 50 + t_new
+                if op.get("dup_id") and taken and len(cur_model):
+                    # an explicit id that is already in use for another tomogram must not re-point the molecules registered with it
+                    # (rejecting the call is fine; accepting it silently is only fine if nothing changes for the old molecules)
+                    dup = sorted(taken, key=str)[op["dup_id"] % len(taken)]
+                    try:
+                        cur.add_tomogram(tomos[t_new], mole_of(new_rows), image_id=dup)
+                    except ValueError:
+                        tomos.pop()
+                        continue
+                    out.append(viol("C03/duplicate-image-id-accepted", f"{tag}: add_tomogram(image_id={dup!r}) with another tomogram was accepted although "
+                                    f"{sum(1 for r in cur_model if r.image_id == dup)} molecules are registered with that id"))
+                    return out
                 ret = cur.add_tomogram(tomos[t_new], mole_of(new_rows), image_id=iid)
                 if ret is not cur:
                     out.append(viol("C03/add_tomogram-return", f"{tag}: add_tomogram did not return the loader"))
@@ -459,7 +471,7 @@ def op_strategy(draw):
     elif name == "replace-params":
         op.update(order=draw(st.sampled_from([0, 1])))
     elif name == "add_tomogram":
-        op.update(pos=draw(st.lists(pos3, min_size=1, max_size=3)), explicit=draw(st.booleans()))
+        op.update(pos=draw(st.lists(pos3, min_size=1, max_size=3)), explicit=draw(st.booleans()), dup_id=draw(st.sampled_from([0, 0, 0, 1, 2])))
     elif name == "groupby":
         op.update(derive=draw(st.sampled_from(["head", "tail", "filter", "none"])), thr=float(draw(st.integers(0, 60))),
                   pick=draw(st.integers(0, 2)), galign=draw(st.booleans()))
